@@ -71,6 +71,8 @@ func c16(tier string) []*explore.Scenario {
 	for _, kind := range []string{"stuck-writer-then-failing-reader", "both-while-forwarder-busy"} {
 		out = append(out, c17DoubleFault("C16", kind, 2))
 	}
+	// finer granularity (a scheduling point after every Unlock as well) on the small core scenarios
+	out = append(out, fineGrained(c17AttachRacesRouting("C16", "succeeds", 1), c16RPC("2unary", true, 1))...)
 	return out
 }
 
